@@ -1444,6 +1444,9 @@ func (w *Walker) call(fr *frame, c *ssa.CallCommon, in ssa.Instruction, rt types
 	if t := w.stdModel(name, args, rt); t != nil {
 		return t
 	}
+	if t := w.textModel(name, args, rt); t != nil {
+		return t
+	}
 	// a memo table (memo.go): a lookup misses, so the value is computed as on first use; storing is no event
 	if strings.HasPrefix(name, "(*sync.Map).") && len(args) > 0 && args[0].Op == "ptr" && args[0].Cell != nil && args[0].Cell.Sym && len(args[0].Path) == 0 {
 		if g := w.P.globalByName(strings.TrimPrefix(args[0].Cell.Name, "&")); g != nil && w.P.memoTable(g).ok {
